@@ -177,6 +177,16 @@ func makeFaultProgram(c *vf.Ctx, seed int64, cfg *pgen.Config, vdr string, tweak
 		if attempt%2 == 0 {
 			injectNumericArgs(p, cfg)
 		}
+		if execStagePct[cfg] > 0 {
+			// some unsplit stages are bare `src exec` stages: mrp runs the probe
+			// directly, without the job monitor; it records its own completion
+			probe := filepath.Join(c.BuildDir, "harness", "probe")
+			for _, st := range p.Stages {
+				if !st.Split && st.SrcLang == "comp" && pgen.NewHashRng("exec", fmt.Sprint(s), st.Name).Intn(100) < execStagePct[cfg] {
+					st.SrcLang, st.Src = "exec", probe+" --exec "+st.Name
+				}
+			}
+		}
 		dir := filepath.Join(c.WorkDir, fmt.Sprintf("base-%d", s))
 		if _, _, err := compileProgram(p, filepath.Join(dir, "compile")); err != nil {
 			os.RemoveAll(dir)
@@ -263,6 +273,10 @@ func injectNumericArgs(p *pgen.Program, cfg *pgen.Config) {
 	p.Top.Binds = append(p.Top.Binds, pgen.Binding{Id: "zzneg", Exp: &pgen.Exp{Kind: pgen.EFloat, F: -0.625}},
 		pgen.Binding{Id: "zzbig", Exp: &pgen.Exp{Kind: pgen.EInt, I: -9007199254740993}})
 }
+
+// execStagePct: per generator configuration, the percentage of unsplit stages
+// that are bare `src exec` stages (see makeFaultProgram).
+var execStagePct = map[*pgen.Config]int{}
 
 type crashSpec struct {
 	Point  string `json:"point,omitempty"`
@@ -1070,7 +1084,10 @@ func runFailCase(c *vf.Ctx, fp *faultProgram, idx int, fs failSpec) *failOutcome
 		}
 	}
 	for _, e := range evs {
-		if e.Ev != "start" {
+		if e.Ev != "start" || strings.HasPrefix(fs.Fail, "complete_then_") {
+			// (a process that records completion and fails a moment later may be seen
+			// complete by a poll that falls in between; what counts for that fault is
+			// that mrp does not end up reporting success)
 			continue
 		}
 		fk := e.Job[:strings.LastIndexByte(e.Job, '/')]
@@ -1161,6 +1178,9 @@ func init() {
 			if pi%3 == 2 {
 				// the first skeleton is the one with preflight calls (kind 3)
 				tmpl = 1 + (pi/3+3)%pgen.NTemplates
+			}
+			if pi%4 == 2 {
+				execStagePct[cfg] = 60
 			}
 			chunkChoices := []int{1, 2, 3}
 			if pi%4 == 0 {
@@ -1265,6 +1285,23 @@ func init() {
 						fs.AutoRetry = 2
 					}
 					jobs = append(jobs, job{fp, idx, fs})
+					idx++
+				}
+				// bare exec stages: the failures such a stage can have within the job
+				// contract (it reports an error or assertion itself, exits non-zero, dies
+				// from a signal). A process that records its completion and then fails
+				// after all breaks the contract; whether mrp notices depends on whether a
+				// poll falls between the two (seen on the unchanged tree), so that
+				// manifestation is not part of the workload.
+				var execJobs []string
+				for _, j := range fp.jobs {
+					if st := fp.prog.Stage(fp.jobStage[j]); st != nil && st.SrcLang == "exec" {
+						execJobs = append(execJobs, j)
+					}
+				}
+				for k := 0; k < c.Pick(8, 24) && len(execJobs) > 0; k++ {
+					j := execJobs[rng.Intn(len(execJobs))]
+					jobs = append(jobs, job{fp, idx, failSpec{Job: j, Fail: []string{"errpipe", "exit", "kill9", "assert", "segv", "exit_after_outs"}[k%6], Repeated: k%3 != 2}})
 					idx++
 				}
 				// a fault that mrp takes for transient, on every attempt: the retry
